@@ -22,7 +22,7 @@ Print Assumptions c17_tables_wf.
    same answer, because every token consumes at least one character. *)
 Theorem c17_lex_terminates : forall ia ian s f pos, (List.length s < f)%nat ->
   lex_loop ia ian T f pos s = lex_loop ia ian T (S (List.length s)) pos s.
-Proof. intros. apply (lex_loop_fuel_ge ia ian T c17_tables_wf); auto. Qed.
+Proof. exact (fun ia ian => lex_terminates ia ian T c17_tables_wf). Qed.
 Print Assumptions c17_lex_terminates.
 
 (* Accepted input: the first token is the synthetic Start token 0..0. *)
@@ -70,7 +70,7 @@ Print Assumptions c17_tail_is_inline_whitespace.
 (* Rejected input yields no tokens: the result is either None (= Err(errors); that the implementation reports
    at least one error is checked on the implementation) or a token list; there is no partial list. *)
 Theorem c17_reject_no_tokens : forall ia ian s, lex ia ian T s = None -> forall ts, lex ia ian T s <> Some ts.
-Proof. intros ia ian s H ts E. rewrite H in E. discriminate. Qed.
+Proof. exact (fun ia ian => reject_no_tokens ia ian T). Qed.
 Print Assumptions c17_reject_no_tokens.
 
 (* ---------------------------------------------------------------------------------------------------------------
@@ -122,4 +122,4 @@ Example c17_class_ok_exec : class_ok alpha_exec alnum_exec.
 Proof. exact class_ok_exec. Qed.
 (* the known class is narrow: it only contains Ident tokens whose text is one of the 13 reserved words *)
 Example c17_known_is_ident : forall s t, KeywordLikeIdent T s t -> exists w, tkind t = KIdent w /\ (In w (t_keywords T) \/ In w (words T)).
-Proof. intros s t (w & A & _ & C). exists w. auto. Qed.
+Proof. exact (known_is_ident T). Qed.
